@@ -407,7 +407,8 @@ theorem Rep0.no_loop {g : MG} {W : List Wire} {body : Wire → List Nd} (r : Rep
 theorem NInv.removeOne {W : List Wire} {g : MG} {body : Wire → List Nd} (h : NInv W g body) (p : Nd) (o : Op)
     (hp : g.opOf p = some (.gate o)) (wq : Wire) (ho : opWires o = [wq]) :
     ∃ b1 b2, body wq = b1 ++ p :: b2 ∧ NInv W (g.removeOp p) (upd body wq (b1 ++ b2)) ∧
-      (∀ m, (g.removeOp p).opOf m = if m = p then none else g.opOf m) := by
+      (∀ m, (g.removeOp p).opOf m = if m = p then none else g.opOf m) ∧
+      (g.removeOp p).nodes = g.nodes.filter (fun q => q.1 != p) := by
   obtain ⟨hwq, hpb⟩ := h.onPath p o hp wq (by rw [ho]; simp)
   obtain ⟨b1, b2, hb⟩ := List.append_of_mem hpb
   refine ⟨b1, b2, hb, ?_⟩
@@ -574,7 +575,7 @@ theorem NInv.removeOne {W : List Wire} {g : MG} {body : Wire → List Nd} (h : N
       rw [hnodes] at hm
       obtain ⟨q, hq, hq1⟩ := List.mem_map.1 hm
       exact List.mem_map.2 ⟨q, (List.mem_filter.1 hq).1, hq1⟩
-  refine ⟨⟨hrep, ?_, ?_, ?_⟩, hop⟩
+  refine ⟨⟨hrep, ?_, ?_, ?_⟩, hop, hnodes⟩
   · intro n o' hn w' hw'
     rw [hop n] at hn
     split at hn
@@ -627,12 +628,14 @@ theorem NInv.insertMany {W : List Wire} (p : Nd) (wq : Wire) (hwq : wq ∈ W) (b
         (∀ w, w ≠ wq → body' w = body w) ∧ ins.filterMap (gateAt (insertAll p wq us g)) = us ∧
         (∀ m, m ∈ g.nodes.map (·.1) → (insertAll p wq us g).opOf m = g.opOf m) ∧
         (∀ m, m ∈ g.nodes.map (·.1) → m ∈ (insertAll p wq us g).nodes.map (·.1)) ∧
-        (∀ m o', (insertAll p wq us g).opOf m = some (.gate o') → g.opOf m = some (.gate o') ∨ o' ∈ us) := by
+        (∀ m o', (insertAll p wq us g).opOf m = some (.gate o') → g.opOf m = some (.gate o') ∨ o' ∈ us) ∧
+        (∃ extra, (insertAll p wq us g).nodes = g.nodes ++ extra ∧ extra.map (·.2) = us.map NOp.gate) := by
   intro us
   induction us with
   | nil =>
     intro g body ins0 h hb _
-    exact ⟨body, [], h, by simpa using hb, fun _ _ => rfl, rfl, fun _ _ => rfl, fun _ hm => hm, fun _ _ ho => Or.inl ho⟩
+    exact ⟨body, [], h, by simpa using hb, fun _ _ => rfl, rfl, fun _ _ => rfl, fun _ hm => hm, fun _ _ ho => Or.inl ho,
+      [], by simp [insertAll], rfl⟩
   | cons o us' ih =>
     intro g body ins0 h hb hus
     -- the in-edge of `p`
@@ -654,12 +657,13 @@ theorem NInv.insertMany {W : List Wire} (p : Nd) (wq : Wire) (hwq : wq ∈ W) (b
     obtain ⟨h', hold, hnew, hnodes⟩ := h.insertBefore p wq hwq (b1 ++ ins0) b2 hb o (hus o (by simp)) e hfind
     have hb' : upd body wq (b1 ++ ins0 ++ Nd.op (g.nodeId + 1) :: p :: b2) wq = b1 ++ (ins0 ++ [Nd.op (g.nodeId + 1)]) ++ p :: b2 := by
       rw [upd_same]; simp
-    obtain ⟨body'', ins, h'', hb'', hother, hgates, hold2, hmem2, hwr⟩ := ih (g.insertAt o e) _ (ins0 ++ [Nd.op (g.nodeId + 1)]) h' hb'
+    obtain ⟨body'', ins, h'', hb'', hother, hgates, hold2, hmem2, hwr, extra, hex1, hex2⟩ := ih (g.insertAt o e) _ (ins0 ++ [Nd.op (g.nodeId + 1)]) h' hb'
       (fun o' ho' => hus o' (List.mem_cons_of_mem _ ho'))
     have hxmem : Nd.op (g.nodeId + 1) ∈ (g.insertAt o e).nodes.map (·.1) := by rw [hnodes]; simp
     have hsub : ∀ m, m ∈ g.nodes.map (·.1) → m ∈ (g.insertAt o e).nodes.map (·.1) := by
       intro m hm; rw [hnodes, List.map_append]; exact List.mem_append_left _ hm
-    refine ⟨body'', Nd.op (g.nodeId + 1) :: ins, h'', ?_, ?_, ?_, ?_, ?_, ?_⟩
+    refine ⟨body'', Nd.op (g.nodeId + 1) :: ins, h'', ?_, ?_, ?_, ?_, ?_, ?_,
+      ⟨(Nd.op (g.nodeId + 1), NOp.gate o) :: extra, by rw [hex1, hnodes]; simp, by simp [hex2]⟩⟩
     · rw [hb'']; simp
     · intro w hw; rw [hother w hw, upd_other body wq w _ hw]
     · rw [List.filterMap_cons]
@@ -714,15 +718,18 @@ theorem NInv.unwrapOne {W : List Wire} {g : MG} {body : Wire → List Nd} (h : N
       (∀ m, m ≠ p → m ∈ g.nodes.map (·.1) →
         ((insertAll p (Wire.ofQ q) (Op.unwrap (.wrap gs q)) g).removeOp p).opOf m = g.opOf m) ∧
       (∀ m o', ((insertAll p (Wire.ofQ q) (Op.unwrap (.wrap gs q)) g).removeOp p).opOf m = some (.gate o') →
-        (m ≠ p ∧ g.opOf m = some (.gate o')) ∨ o' ∈ Op.unwrap (.wrap gs q)) := by
+        (m ≠ p ∧ g.opOf m = some (.gate o')) ∨ o' ∈ Op.unwrap (.wrap gs q)) ∧
+      (∃ extra, ((insertAll p (Wire.ofQ q) (Op.unwrap (.wrap gs q)) g).removeOp p).nodes
+          = (g.nodes ++ extra).filter (fun x => x.1 != p) ∧
+        extra.map (·.2) = (Op.unwrap (.wrap gs q)).map NOp.gate ∧ ((g.nodes ++ extra).map (·.1)).Nodup) := by
   have hwires : opWires (.wrap gs q) = [Wire.ofQ q] := rfl
   obtain ⟨hwq, hpb⟩ := h.onPath p _ hp (Wire.ofQ q) (by rw [hwires]; simp)
   obtain ⟨b1, b2, hb⟩ := List.append_of_mem hpb
-  obtain ⟨body1, ins, h1, hb1, hother1, hgates1, hold1, hmem1, hwr1⟩ :=
+  obtain ⟨body1, ins, h1, hb1, hother1, hgates1, hold1, hmem1, hwr1, extra, hex1, hex2⟩ :=
     NInv.insertMany p (Wire.ofQ q) hwq b1 b2 (Op.unwrap (.wrap gs q)) g body [] h (by simpa using hb) (unwrap_wires gs q)
   have hp1 : (insertAll p (Wire.ofQ q) (Op.unwrap (.wrap gs q)) g).opOf p = some (.gate (.wrap gs q)) := by
     rw [hold1 p (opOf_some_mem g p _ hp)]; exact hp
-  obtain ⟨c1, c2, hc, h2, hop2⟩ := h1.removeOne p _ hp1 (Wire.ofQ q) hwires
+  obtain ⟨c1, c2, hc, h2, hop2, hnodes2⟩ := h1.removeOne p _ hp1 (Wire.ofQ q) hwires
   -- the two decompositions of the path body agree
   have hbody1 : body1 (Wire.ofQ q) = (b1 ++ ins) ++ p :: b2 := by rw [hb1]; simp
   have hnd1 : (body1 (Wire.ofQ q)).Nodup := by
@@ -739,7 +746,7 @@ theorem NInv.unwrapOne {W : List Wire} {g : MG} {body : Wire → List Nd} (h : N
     have := (List.nodup_cons.1 (hperm.nodup_iff.1 hnd1)).1
     simp only [List.mem_append, not_or] at this ⊢
     tauto
-  refine ⟨_, h2, ?_, ?_, ?_⟩
+  refine ⟨_, h2, ?_, ?_, ?_, ⟨extra, by rw [hnodes2, hex1], hex2, by rw [← hex1]; exact h1.names⟩⟩
   · intro w hw
     by_cases hk : w = Wire.ofQ q
     · subst hk
@@ -794,6 +801,98 @@ theorem NInv.unwrapOne {W : List Wire} {g : MG} {body : Wire → List Nd} (h : N
       · exact Or.inl ⟨hne, h'⟩
       · exact Or.inr h'
 
+
+/-! ## counting nodes: the operation nodes as a multiset -/
+
+def nonId (o : Op) : Bool := !o.isIdentity
+
+theorem perm_cons_filter (ns : List (Nd × NOp)) (hnd : (ns.map (·.1)).Nodup) (e : Nd × NOp) (he : e ∈ ns) :
+    ns.Perm (e :: ns.filter (fun q => q.1 != e.1)) := by
+  induction ns with
+  | nil => cases he
+  | cons a rest ih =>
+    simp only [List.map_cons, List.nodup_cons] at hnd
+    rcases List.mem_cons.1 he with rfl | he'
+    · have : (e :: rest).filter (fun q => q.1 != e.1) = rest := by
+        rw [List.filter_cons_of_neg (by simp), List.filter_eq_self]
+        intro q hq
+        have : q.1 ≠ e.1 := fun h' => hnd.1 (h' ▸ List.mem_map_of_mem hq)
+        simpa using this
+      rw [this]
+    · have hne : a.1 ≠ e.1 := fun h' => hnd.1 (h' ▸ List.mem_map_of_mem he')
+      have : (a :: rest).filter (fun q => q.1 != e.1) = a :: rest.filter (fun q => q.1 != e.1) := by
+        rw [List.filter_cons_of_pos (by simpa using hne)]
+      rw [this]
+      exact ((ih hnd.2 he').cons a).trans (List.Perm.swap e a _)
+
+theorem gateOpsOf_of_snd (extra : List (Nd × NOp)) (us : List Op) (h : extra.map (·.2) = us.map NOp.gate) :
+    gateOpsOf extra = us ∧ ioOf extra = [] := by
+  induction extra generalizing us with
+  | nil =>
+    cases us with
+    | nil => exact ⟨rfl, rfl⟩
+    | cons _ _ => cases h
+  | cons a rest ih =>
+    cases us with
+    | nil => cases h
+    | cons u us' =>
+      simp only [List.map_cons, List.cons.injEq] at h
+      obtain ⟨e1, e2⟩ := ih us' h.2
+      have hg : gateOfEntry a = some u := by unfold gateOfEntry; rw [h.1]
+      constructor
+      · unfold gateOpsOf at e1 ⊢
+        rw [List.filterMap_cons, hg, e1]
+      · unfold ioOf at e2 ⊢
+        rw [List.filter_cons_of_neg (by simp [hg]), e2]
+
+/-- one wrapper node processed: the multiset of unwrapped operations and the input/output nodes are unchanged -/
+theorem unwrap_nodes_measure (ns extra : List (Nd × NOp)) (hnd : ((ns ++ extra).map (·.1)).Nodup) (p : Nd) (gs : List G1)
+    (q : QReg) (he : (p, NOp.gate (.wrap gs q)) ∈ ns) (hex : extra.map (·.2) = (Op.unwrap (.wrap gs q)).map NOp.gate) :
+    ((gateOpsOf ((ns ++ extra).filter (fun x => x.1 != p))).flatMap Op.unwrap).Perm ((gateOpsOf ns).flatMap Op.unwrap) ∧
+    (ioOf ((ns ++ extra).filter (fun x => x.1 != p))).length = (ioOf ns).length := by
+  obtain ⟨eg, eio⟩ := gateOpsOf_of_snd extra _ hex
+  have hperm := perm_cons_filter (ns ++ extra) hnd (p, NOp.gate (.wrap gs q)) (List.mem_append_left _ he)
+  simp only at hperm
+  constructor
+  · have h1 : (gateOpsOf (ns ++ extra)).Perm (Op.wrap gs q :: gateOpsOf ((ns ++ extra).filter (fun x => x.1 != p))) := by
+      have := hperm.filterMap gateOfEntry
+      simpa [gateOpsOf, gateOfEntry] using this
+    have h2 := h1.flatMap_right Op.unwrap
+    have e1 : gateOpsOf (ns ++ extra) = gateOpsOf ns ++ Op.unwrap (.wrap gs q) := by
+      unfold gateOpsOf at eg ⊢
+      rw [List.filterMap_append, eg]
+    rw [e1, List.flatMap_append, unwrap_unwrap, List.flatMap_cons] at h2
+    -- cancel the unwrapped operations of the wrapper
+    have h3 : ((gateOpsOf ns).flatMap Op.unwrap ++ Op.unwrap (.wrap gs q)).Perm
+        ((gateOpsOf ((ns ++ extra).filter (fun x => x.1 != p))).flatMap Op.unwrap ++ Op.unwrap (.wrap gs q)) :=
+      h2.trans List.perm_append_comm
+    exact ((List.perm_append_right_iff _).1 h3).symm
+  · have h1 := (hperm.filter (fun p => (gateOfEntry p).isNone)).length_eq
+    have e1 : ioOf (ns ++ extra) = ioOf ns := by
+      unfold ioOf at eio ⊢
+      rw [List.filter_append, eio, List.append_nil]
+    unfold ioOf at e1 ⊢
+    rw [e1] at h1
+    rw [h1, List.filter_cons_of_neg (by simp [gateOfEntry])]
+
+/-- one identity node removed -/
+theorem ident_nodes_measure (ns : List (Nd × NOp)) (hnd : (ns.map (·.1)).Nodup) (p : Nd) (q : QReg)
+    (he : (p, NOp.gate (.one .I q)) ∈ ns) :
+    ((gateOpsOf (ns.filter (fun x => x.1 != p))).filter nonId).Perm ((gateOpsOf ns).filter nonId) ∧
+    (ioOf (ns.filter (fun x => x.1 != p))).length = (ioOf ns).length := by
+  have hperm := perm_cons_filter ns hnd (p, NOp.gate (.one .I q)) he
+  simp only at hperm
+  constructor
+  · have h1 : (gateOpsOf ns).Perm (Op.one .I q :: gateOpsOf (ns.filter (fun x => x.1 != p))) := by
+      have := hperm.filterMap gateOfEntry
+      simpa [gateOpsOf, gateOfEntry] using this
+    have h2 := h1.filter nonId
+    rw [List.filter_cons_of_neg (by simp [nonId, Op.isIdentity])] at h2
+    exact h2.symm
+  · have h1 := (hperm.filter (fun p => (gateOfEntry p).isNone)).length_eq
+    unfold ioOf
+    rw [h1, List.filter_cons_of_neg (by simp [gateOfEntry])]
+
 /-! ## `unwrap_nodes` -/
 
 def unwrapStep (g : MG) (p : Nd × NOp) : MG :=
@@ -847,12 +946,14 @@ theorem unwrap_fold {W : List Wire} : ∀ (todo : List (Nd × NOp)) (g : MG) (bo
     (∀ m gs q, g.opOf m = some (.gate (.wrap gs q)) → m ∈ todo.map (·.1)) →
     ∃ body', NInv W (todo.foldl unwrapStep g) body' ∧
       (∀ w ∈ W, (wireOps (todo.foldl unwrapStep g) body' w).flatMap Op.unwrap = (wireOps g body w).flatMap Op.unwrap) ∧
-      (∀ m gs q, (todo.foldl unwrapStep g).opOf m ≠ some (.gate (.wrap gs q))) := by
+      (∀ m gs q, (todo.foldl unwrapStep g).opOf m ≠ some (.gate (.wrap gs q))) ∧
+      ((gateOpsOf (todo.foldl unwrapStep g).nodes).flatMap Op.unwrap).Perm ((gateOpsOf g.nodes).flatMap Op.unwrap) ∧
+      (ioOf (todo.foldl unwrapStep g).nodes).length = (ioOf g.nodes).length := by
   intro todo
   induction todo with
   | nil =>
     intro g body h _ _ hall
-    refine ⟨body, h, fun _ _ => rfl, ?_⟩
+    refine ⟨body, h, fun _ _ => rfl, ?_, List.Perm.refl _, rfl⟩
     intro m gs q hm
     have := hall m gs q hm
     cases this
@@ -874,10 +975,10 @@ theorem unwrap_fold {W : List Wire} : ∀ (todo : List (Nd × NOp)) (g : MG) (bo
     have hstep : unwrapStep g p = (insertAll p.1 (Wire.ofQ q) (Op.unwrap (.wrap gs q)) g).removeOp p.1 := by
       unfold unwrapStep; rw [hpw]
     rw [hpw] at hp1
-    obtain ⟨body1, h1, hT1, hold1, hwr1⟩ := h.unwrapOne p.1 gs q hp1
+    obtain ⟨body1, h1, hT1, hold1, hwr1, extra1, hex1, hex2, hexnd⟩ := h.unwrapOne p.1 gs q hp1
     rw [List.foldl_cons, hstep]
     simp only [List.map_cons, List.nodup_cons] at hnd
-    obtain ⟨body2, h2, hT2, hno⟩ := ih _ body1 h1 hnd.2
+    obtain ⟨body2, h2, hT2, hno, hP2, hI2⟩ := ih _ body1 h1 hnd.2
       (by
         intro p' hp'
         obtain ⟨a, b⟩ := htodo p' (List.mem_cons_of_mem _ hp')
@@ -892,7 +993,9 @@ theorem unwrap_fold {W : List Wire} : ∀ (todo : List (Nd × NOp)) (g : MG) (bo
           · exact absurd h' hne
           · exact h'
         · exact absurd hnew (unwrap_no_wrap gs q gs' q'))
-    exact ⟨body2, h2, fun w hw => (hT2 w hw).trans (hT1 w hw), hno⟩
+    obtain ⟨hP1, hI1⟩ := unwrap_nodes_measure g.nodes extra1 hexnd p.1 gs q (opOf_some_pair_mem g _ _ hp1) hex2
+    rw [← hex1] at hP1 hI1
+    exact ⟨body2, h2, fun w hw => (hT2 w hw).trans (hT1 w hw), hno, hP2.trans hP1, hI2.trans hI1⟩
 
 theorem flatMap_unwrap_of_no_wrap (l : List Op) (h : ∀ o ∈ l, ∀ gs q, o ≠ .wrap gs q) : l.flatMap Op.unwrap = l := by
   induction l with
@@ -926,19 +1029,19 @@ theorem mem_wireOps (g : MG) (body : Wire → List Nd) (w : Wire) (o : Op) (h : 
 theorem removeIdentity_eq (g : MG) :
     g.removeIdentity = (g.nodes.filter (fun p => isIdentityNode p.2)).foldl (fun g p => g.removeOp p.1) g := rfl
 
-def nonId (o : Op) : Bool := !o.isIdentity
-
 theorem ident_fold {W : List Wire} : ∀ (todo : List (Nd × NOp)) (g : MG) (body : Wire → List Nd), NInv W g body →
     (todo.map (·.1)).Nodup → (∀ p ∈ todo, g.opOf p.1 = some p.2 ∧ isIdentityNode p.2 = true) →
     (∀ m q, g.opOf m = some (.gate (.one .I q)) → m ∈ todo.map (·.1)) →
     ∃ body', NInv W (todo.foldl (fun g p => g.removeOp p.1) g) body' ∧
       (∀ w ∈ W, (wireOps (todo.foldl (fun g p => g.removeOp p.1) g) body' w).filter nonId = (wireOps g body w).filter nonId) ∧
-      (∀ m q, (todo.foldl (fun g p => g.removeOp p.1) g).opOf m ≠ some (.gate (.one .I q))) := by
+      (∀ m q, (todo.foldl (fun g p => g.removeOp p.1) g).opOf m ≠ some (.gate (.one .I q))) ∧
+      ((gateOpsOf (todo.foldl (fun g p => g.removeOp p.1) g).nodes).filter nonId).Perm ((gateOpsOf g.nodes).filter nonId) ∧
+      (ioOf (todo.foldl (fun g p => g.removeOp p.1) g).nodes).length = (ioOf g.nodes).length := by
   intro todo
   induction todo with
   | nil =>
     intro g body h _ _ hall
-    refine ⟨body, h, fun _ _ => rfl, ?_⟩
+    refine ⟨body, h, fun _ _ => rfl, ?_, List.Perm.refl _, rfl⟩
     intro m q hm
     have := hall m q hm
     cases this
@@ -960,7 +1063,7 @@ theorem ident_fold {W : List Wire} : ∀ (todo : List (Nd × NOp)) (g : MG) (bod
     rw [hpw] at hp1
     have hwires : opWires (.one .I q) = [Wire.ofQ q] := rfl
     obtain ⟨hwq, _⟩ := h.onPath p.1 _ hp1 (Wire.ofQ q) (by rw [hwires]; simp)
-    obtain ⟨b1, b2, hb, h1, hop1⟩ := h.removeOne p.1 _ hp1 (Wire.ofQ q) hwires
+    obtain ⟨b1, b2, hb, h1, hop1, hnodes1⟩ := h.removeOne p.1 _ hp1 (Wire.ofQ q) hwires
     rw [List.foldl_cons]
     simp only [List.map_cons, List.nodup_cons] at hnd
     have hT1 : ∀ w ∈ W, (wireOps (g.removeOp p.1) (upd body (Wire.ofQ q) (b1 ++ b2)) w).filter nonId = (wireOps g body w).filter nonId := by
@@ -1003,7 +1106,7 @@ theorem ident_fold {W : List Wire} : ∀ (todo : List (Nd × NOp)) (g : MG) (bod
           rw [← hop, hwires, List.mem_singleton] at hwo
           exact hk hwo
         rw [hop1 n, if_neg hne]
-    obtain ⟨body2, h2, hT2, hno⟩ := ih _ _ h1 hnd.2
+    obtain ⟨body2, h2, hT2, hno, hP2, hI2⟩ := ih _ _ h1 hnd.2
       (by
         intro p' hp'
         obtain ⟨a, b⟩ := htodo p' (List.mem_cons_of_mem _ hp')
@@ -1020,7 +1123,9 @@ theorem ident_fold {W : List Wire} : ∀ (todo : List (Nd × NOp)) (g : MG) (bod
           rcases this with h' | h'
           · exact absurd h' hne
           · exact h')
-    exact ⟨body2, h2, fun w hw => (hT2 w hw).trans (hT1 w hw), hno⟩
+    obtain ⟨hP1, hI1⟩ := ident_nodes_measure g.nodes h.names p.1 q (opOf_some_pair_mem g _ _ hp1)
+    rw [← hnodes1] at hP1 hI1
+    exact ⟨body2, h2, fun w hw => (hT2 w hw).trans (hT1 w hw), hno, hP2.trans hP1, hI2.trans hI1⟩
 
 /-! ## the normalised DAG -/
 
@@ -1063,14 +1168,27 @@ theorem flat_filter_touches (w : Wire) (l : List Op) :
   unfold nonId
   rw [Bool.and_comm]
 
+theorem gateOpsOf_mem_opOf (g : MG) (hn : (g.nodes.map (·.1)).Nodup) (o : Op) (ho : o ∈ gateOpsOf g.nodes) :
+    ∃ n, g.opOf n = some (.gate o) := by
+  unfold gateOpsOf at ho
+  obtain ⟨p, hp, hg⟩ := List.mem_filterMap.1 ho
+  refine ⟨p.1, ?_⟩
+  rw [opOf_of_mem g hn p hp]
+  unfold gateOfEntry at hg
+  cases h2 : p.2 with
+  | gate o' => rw [h2] at hg; simp only [Option.some.injEq] at hg; rw [hg]
+  | input _ => rw [h2] at hg; cases hg
+  | output _ => rw [h2] at hg; cases hg
+
 /-- **the normalised DAG (`unwrap_nodes`, `remove_identity`) is a family of register paths carrying the flattened
-    operations** -/
-theorem normalise_graphInv (W : List Wire) (g : MG) (l : List Op) (h : BuildInv W g l) :
-    GraphInv W g.normalise (fun w => (flat l).filter (touches w)) := by
-  obtain ⟨body, r, _, hid, hops, hon, hnames⟩ := h
+    operations**, and it has one node per executed operation besides the input and output nodes -/
+theorem normalise_full (W : List Wire) (g : MG) (l : List Op) (h : BuildInv W g l) :
+    GraphInv W g.normalise (fun w => (flat l).filter (touches w)) ∧
+    g.normalise.nodes.length = 2 * W.length + (flat l).length := by
+  obtain ⟨body, r, _, hid, hops, hon, hnames, hgl, hio, _⟩ := h
   have h0 : NInv W g body := ⟨r, hon, hnames, hid⟩
   -- unwrap
-  obtain ⟨body1, h1, hT1, hno1⟩ := unwrap_fold (g.nodes.filter (fun p => isWrapper p.2)) g body h0
+  obtain ⟨body1, h1, hT1, hno1, hP1, hI1⟩ := unwrap_fold (g.nodes.filter (fun p => isWrapper p.2)) g body h0
     (hnames.sublist (List.Sublist.map _ List.filter_sublist))
     (by
       intro p hp
@@ -1080,9 +1198,9 @@ theorem normalise_graphInv (W : List Wire) (g : MG) (l : List Op) (h : BuildInv 
       intro m gs q hm
       have := opOf_some_pair_mem g m _ hm
       exact List.mem_map.2 ⟨_, List.mem_filter.2 ⟨this, rfl⟩, rfl⟩)
-  rw [← unwrapNodes_eq] at h1 hT1 hno1
+  rw [← unwrapNodes_eq] at h1 hT1 hno1 hP1 hI1
   -- remove identities
-  obtain ⟨body2, h2, hT2, hno2⟩ := ident_fold (g.unwrapNodes.nodes.filter (fun p => isIdentityNode p.2)) g.unwrapNodes body1 h1
+  obtain ⟨body2, h2, hT2, hno2, hP2, hI2⟩ := ident_fold (g.unwrapNodes.nodes.filter (fun p => isIdentityNode p.2)) g.unwrapNodes body1 h1
     (h1.names.sublist (List.Sublist.map _ List.filter_sublist))
     (by
       intro p hp
@@ -1092,30 +1210,59 @@ theorem normalise_graphInv (W : List Wire) (g : MG) (l : List Op) (h : BuildInv 
       intro m q hm
       have := opOf_some_pair_mem _ m _ hm
       exact List.mem_map.2 ⟨_, List.mem_filter.2 ⟨this, rfl⟩, rfl⟩)
-  rw [← removeIdentity_eq] at h2 hT2 hno2
-  refine ⟨body2, h2.rep, ?_, h2.onPath⟩
-  intro w hw
-  show wireOps g.unwrapNodes.removeIdentity body2 w = (flat l).filter (touches w)
-  rw [flat_filter_touches, ← hops w hw, ← hT1 w hw]
-  have e1 : (wireOps g.unwrapNodes body1 w).flatMap Op.unwrap = wireOps g.unwrapNodes body1 w := by
-    apply flatMap_unwrap_of_no_wrap
-    intro o ho gs q hoq
+  rw [← removeIdentity_eq] at h2 hT2 hno2 hP2 hI2
+  constructor
+  · refine ⟨body2, h2.rep, ?_, h2.onPath⟩
+    intro w hw
+    show wireOps g.unwrapNodes.removeIdentity body2 w = (flat l).filter (touches w)
+    rw [flat_filter_touches, ← hops w hw, ← hT1 w hw]
+    have e1 : (wireOps g.unwrapNodes body1 w).flatMap Op.unwrap = wireOps g.unwrapNodes body1 w := by
+      apply flatMap_unwrap_of_no_wrap
+      intro o ho gs q hoq
+      obtain ⟨n, _, hn⟩ := mem_wireOps _ _ _ _ ho
+      rw [hoq] at hn
+      exact hno1 n gs q hn
+    rw [e1, ← hT2 w hw]
+    symm
+    rw [List.filter_eq_self]
+    intro o ho
     obtain ⟨n, _, hn⟩ := mem_wireOps _ _ _ _ ho
-    rw [hoq] at hn
-    exact hno1 n gs q hn
-  rw [e1, ← hT2 w hw]
-  symm
-  rw [List.filter_eq_self]
-  intro o ho
-  obtain ⟨n, _, hn⟩ := mem_wireOps _ _ _ _ ho
-  unfold nonId
-  cases o with
-  | one g1 q =>
-    cases g1 <;> first | rfl | exact absurd hn (hno2 n q)
-  | wrap _ _ => rfl
-  | ctrl _ _ _ => rfl
-  | cctrl _ _ _ _ => rfl
-  | meas _ _ => rfl
+    unfold nonId
+    cases o with
+    | one g1 q =>
+      cases g1 <;> first | rfl | exact absurd hn (hno2 n q)
+    | wrap _ _ => rfl
+    | ctrl _ _ _ => rfl
+    | cctrl _ _ _ _ => rfl
+    | meas _ _ => rfl
+  · -- the operation nodes of the normalised graph are, as a multiset, the executed operations
+    have e1 : (gateOpsOf g.unwrapNodes.nodes).flatMap Op.unwrap = gateOpsOf g.unwrapNodes.nodes := by
+      apply flatMap_unwrap_of_no_wrap
+      intro o ho gs q hoq
+      obtain ⟨n, hn⟩ := gateOpsOf_mem_opOf _ h1.names o ho
+      rw [hoq] at hn
+      exact hno1 n gs q hn
+    have e2 : (gateOpsOf g.unwrapNodes.removeIdentity.nodes).filter nonId = gateOpsOf g.unwrapNodes.removeIdentity.nodes := by
+      rw [List.filter_eq_self]
+      intro o ho
+      obtain ⟨n, hn⟩ := gateOpsOf_mem_opOf _ h2.names o ho
+      unfold nonId
+      cases o with
+      | one g1 q =>
+        cases g1 <;> first | rfl | exact absurd hn (hno2 n q)
+      | wrap _ _ => rfl
+      | ctrl _ _ _ => rfl
+      | cctrl _ _ _ _ => rfl
+      | meas _ _ => rfl
+    rw [e1, hgl] at hP1
+    rw [e2] at hP2
+    have hperm : (gateOpsOf g.unwrapNodes.removeIdentity.nodes).Perm (flat l) := hP2.trans (hP1.filter nonId)
+    have hlen := length_io_gate g.unwrapNodes.removeIdentity.nodes
+    show g.unwrapNodes.removeIdentity.nodes.length = _
+    rw [hlen, hperm.length_eq, hI2, hI1, hio]
+
+theorem normalise_graphInv (W : List Wire) (g : MG) (l : List Op) (h : BuildInv W g l) :
+    GraphInv W g.normalise (fun w => (flat l).filter (touches w)) := (normalise_full W g l h).1
 
 /-! ## the comparison `remove_redundant_circuits` makes -/
 
